@@ -213,14 +213,14 @@ type WEval struct {
 	depth      int
 	memo       map[ssa.Value]*Lay
 	inPhi      map[*ssa.Phi]bool
-	elemNames  map[ssa.Value]string   // loop element loads -> "coll[i]"
-	allocEpoch map[*ssa.Alloc]int     // reader paths: named locals are printed as name#epoch
-	pathPhi    map[*ssa.Phi]ssa.Value // evaluation along one enumerated path: the incoming value chosen at each merge
-	parentEval *WEval                 // for a function literal: the evaluator of the function that creates it
-	argLay     map[ssa.Value]*Lay     // byte-slice parameters of an evaluated callee: the caller's layout of the argument
-	pathBlocks map[*ssa.BasicBlock]bool // evaluation along one enumerated path: the blocks on it (writes elsewhere did not happen)
+	elemNames  map[ssa.Value]string        // loop element loads -> "coll[i]"
+	allocEpoch map[*ssa.Alloc]int          // reader paths: named locals are printed as name#epoch
+	pathPhi    map[*ssa.Phi]ssa.Value      // evaluation along one enumerated path: the incoming value chosen at each merge
+	parentEval *WEval                      // for a function literal: the evaluator of the function that creates it
+	argLay     map[ssa.Value]*Lay          // byte-slice parameters of an evaluated callee: the caller's layout of the argument
+	pathBlocks map[*ssa.BasicBlock]bool    // evaluation along one enumerated path: the blocks on it (writes elsewhere did not happen)
 	fillAcc    map[*ssa.MakeSlice]*ssa.Phi // buffers filled at a running offset: the offset's loop phi (its exit value is the length filled)
-	splitPhi   *ssa.Phi               // set when a merged value had to be printed inside a term (see evalFuncResult)
+	splitPhi   *ssa.Phi                    // set when a merged value had to be printed inside a term (see evalFuncResult)
 	splits     int
 }
 
@@ -1998,7 +1998,6 @@ func phiStepsByOne(ph *ssa.Phi, h *ssa.BasicBlock) bool {
 	}
 	return n > 0
 }
-
 
 // runningOffsetFill: see evalFilledMake. off renders an integer value as a linear form over len(...) atoms,
 // "#i" and "#acc:<phi>" atoms.
